@@ -14,7 +14,8 @@ CHECKS = {
         "these definitions on every run by ONE LEMMA PER SAMPLED MATRIX, proved with the interval tactic: every entry within 1e-9 of the "
         "real-analytic model (blocks bare and inside a solver, integer-typed arguments included). The interface half (place and wire by "
         "pin name, solve, str, print_S, show_free_pins, inspect for int and float arguments, every documented block) is an exhaustive "
-        "enumeration of a finite table — finite checking, labelled so.",
+        "enumeration of a finite table — finite checking, labelled so."
+        " Blocks added after seeded changes were missed: BeamSplitter with explicit transmission t (boundary values) and UserWaveguide with two modes of different key sets.",
    note="Trusted: Coq kernel; Coq.Reals axioms (ClassicalDedekindReals.sig_forall_dec, sig_not_dec, functional_extensionality_dep, "
         "Classical_Prop.classic) and what Interval/Flocq/Coquelicot add (listed per theorem and per generated lemma in the evidence); "
         "hand-written model Blocks.v; harness sampling. User index functions enter as their value. Follows the fixed code (F22-F24). The "
@@ -28,7 +29,8 @@ CHECKS = {
         "table is the scalar read-out of point k. The tie builds random SolvedModels directly, excites random pin subsets by name and by "
         "Pin object (results must be identical) and compares get_output, every row of get_full_output, get_data (T, Amplitude), get_A "
         "and get_T in amplitude and power mode with the model. dB = 10 log10 T and phase = arg A are real-analytic: tied by interval "
-        "arithmetic in the same run.",
+        "arithmetic in the same run."
+        " The full sweep table get_full_data (what export writes) is read too, with sweeps that start at a symmetric point; dark pin pairs (T = 0, dB = -inf) are included; dB and phase are tied by one generated interval lemma per sample.",
    note="Trusted: Coq kernel + vm_compute; Bignums primitives for the executed instance; model Readout.v tied by sampled correspondence; "
         "pandas exercised, not verified; for dB/phase the Coq.Reals axioms and Interval. Follows the fixed code (F19).",
    technique="Coq proof (linearity/definitional laws) + vm_compute correspondence; interval lemmas for dB and phase", design="§5 C15"),
@@ -42,7 +44,8 @@ CHECKS = {
         "tie declares every non-empty proper subset of small circuits (random subsets of larger ones) as monitors, excites random subsets "
         "of exposed pins with complex amplitudes in amplitude and power mode, compares the matrix and the SET of columns with the model; "
         "two further streams declare the monitors only after an earlier solve and re-read a result's monitor table after later solves "
-        "with another parameter value.",
+        "with another parameter value."
+        " Further streams: multi-mode circuits (expanded blocks wired by connect_all, one column pair per (pin, mode)) and pins exposed under two names with the excitation given through either.",
    note="Trusted: Coq kernel + vm_compute; Bignums primitives for the executed instance; model Monitor.v tied by sampled correspondence; "
         "harness. Sweeps of monitored circuits reduce to the per-point statement (C04). Follows the fixed code (F25, F07).",
    technique="Coq proof (uniqueness of interface waves; two-group hierarchy) + vm_compute correspondence incl. late monitors and re-reads", design="§5 C10"),
@@ -55,7 +58,8 @@ CHECKS = {
         "empty one (flatten_compose), provided the names introduced by the outer placement are used nowhere inside (hygienic renamings). "
         "The tie flattens hierarchies on /repo: wiring stream (matrix vs nested and flat model, absence of sub-solvers) and parameter "
         "stream (for {} / each single visible parameter / all of them: value used by every leaf after flatten vs model; default_params "
-        "before/after). A third stream with non-hygienic renamings (shadowing, swaps, chains) exhibits known finding F28.",
+        "before/after). A third stream with non-hygienic renamings (shadowing, swaps, chains) exhibits known finding F28."
+        " A further stream flattens hierarchies in which the same sub-solver is placed twice under different hygienic renamings.",
    note="Trusted: Coq kernel + vm_compute; models Hier.v/Params.v/Flatten.v tied by sampled correspondence; harness. Follows the fixed "
         "code (F12, F13, F14). Sub-solvers define no add_param parameters (documented limitation). KNOWN FINDING F28: with shadowing "
         "renamings flatten() cannot preserve parameter meaning (recorded, not repaired: needs a redesign of the renaming tables).",
@@ -67,7 +71,8 @@ CHECKS = {
         "That numpy batching and every block's create_S implement 'slice by slice' is not a theorem but the tie: (i) solver hierarchies with "
         "probe/spy leaves are swept over random mixes of scalar / length-1 / length-n values and malformed mixes, every sweep index compared "
         "with the model; (ii) EVERY bare library block (also inside a solver, and mode-expanded) is swept over each of its parameters and "
-        "must equal bit-for-bit the stack of its scalar solves.",
+        "must equal bit-for-bit the stack of its scalar solves."
+        " Block table extended with UserWaveguide variants whose modes have different key sets, FPRGaussian with a callable slab index, and fine sweeps (values a few ppm apart, exact repeats).",
    note="Trusted: Coq kernel + vm_compute; models Sweep.v/Params.v tied by sampled correspondence; for the block half the scalar solve of "
         "/repo is the oracle (its physics is C09's subject). Names re-defined by add_param at the solved level are not swept (they are no "
         "longer parameters). Follows the fixed code (F02, F27).",
@@ -82,7 +87,8 @@ CHECKS = {
         "argument subsets and repeats, keeps every result alive, reads each right after its call and again at the end, compares both "
         "readings with the model's history-free value (spy leaves reveal every key they receive), and compares a fingerprint of every "
         "solver's structures, connections, exposed pins, renamings and defaults around each call. Monitor read-outs of earlier results are "
-        "re-read in the C10 check.",
+        "re-read in the C10 check."
+        " The histories include twins and replaced defaults; a further stream re-reads an earlier result's monitor read-out after the solver was solved again.",
    note="Trusted: Coq kernel + vm_compute; model Params.v tied by sampled correspondence; harness. The immutability of returned objects "
         "is an observation over the histories run, not a theorem. Follows the fixed code (F05).",
    technique="Coq theorems (history-freedom of the retained state) + vm_compute correspondence over solve histories with results kept alive", design="§5 C06"),
@@ -95,7 +101,8 @@ CHECKS = {
         "value, else solver default) and for add_param arguments (explicit, else CURRENT solver default, else default at definition). The "
         "as-found sequential loop is formally refuted (rename_asfound_refuted, swap witness = finding F03). The tie builds hierarchies of "
         "solvers whose leaves are probes (transmission = parameter value), random injective renamings incl. swaps/chains in every "
-        "listing order, defaults at all levels before/after add_param, explicit values, and compares the value each leaf used.",
+        "listing order, defaults at all levels before/after add_param, explicit values, and compares the value each leaf used."
+        " A second stream places the SAME model / solver object twice under different renamings and replaces the defaults after add_param (set_default_params), so that the definition defaults are reached.",
    note="Trusted: Coq kernel + vm_compute; model Params.v (incl. the recursive delivery through hierarchies, which is modelled and tied "
         "by correspondence; the declarative 'resolve' specification for whole hierarchies is not separately proved); harness. Follows the "
         "fixed code (F03, F04).",
@@ -107,7 +114,8 @@ CHECKS = {
         "the loop proved by induction over the declaration list). For every netlist, a part that no connection leaves, solved alone under "
         "any schedule, has for the pins it owns the coefficients of the original solver (split_behaves). Closed under the global context. "
         "The tie runs split() of /repo on random graphs incl. cycles, stars whose hub is declared last, multi-links and isolated "
-        "structures, compares the partition as a set of sets and each returned solver's matrix with the model's solve of that part.",
+        "structures, compares the partition as a set of sets and each returned solver's matrix with the model's solve of that part."
+        " Further streams: split() after a structure was cut, added again and wired elsewhere; parametric parts whose FIRST solve is argument-less, with defaults changed after add_param.",
    note="Trusted: Coq kernel + vm_compute; Bignums primitives for the executed instance; model Split.v tied by sampled correspondence; "
         "harness. Follows the fixed code (F15). The 'defaults are handed over' half is checked in the C05/C06 parameter streams.",
    technique="Coq proof (loop invariant, all graphs and orders) + vm_compute correspondence of partitions and part matrices", design="§5 C12"),
@@ -122,7 +130,8 @@ CHECKS = {
         "and sweeps, directly / through a solver / after an earlier solve; wires circuits of expanded blocks (equal, permuted, partially "
         "overlapping mode lists; sub-solvers exposing Pin(base, mode)) through connect_all and compares with the model's solve of the "
         "multi-mode netlist AND with independent per-mode solves and zero cross-mode coefficients; runs the queries on models, results, "
-        "structures and placed sub-solvers.",
+        "structures and placed sub-solvers."
+        " The expansion stream includes blocks that refill one persistent buffer (CWA, FPR).",
    note="Trusted: Coq kernel + vm_compute; Bignums primitives for the executed instance; model Modes.v tied by sampled correspondence; "
         "harness. The circuit-level statement is proved for circuits whose blocks all carry the same mode list (every link replicated per "
         "mode); partially overlapping mode lists are covered by the per-mode comparison in Coq (tie), not by a theorem. Follows the fixed code (F17, F18). Expansion of an "
@@ -137,7 +146,8 @@ CHECKS = {
         "interp_grid / interp_between for all strictly increasing grids) and is undefined outside; a mode mapping keeps exactly the "
         "mapped pins, renamed, and changes no kept coefficient (mode_select_ok); |z|^2 and arg z determine z (polar_roundtrip, over the "
         "reals). The tie exports hand-made and really solved sweeps with /repo, loads them with the real loader and compares pins and "
-        "every coefficient at every exported point and at in-between values with the model.",
+        "every coefficient at every exported point and at in-between values with the model."
+        " Two-parameter files are also evaluated with the keywords in the reverse of the file's column order.",
    note="Trusted: Coq kernel + vm_compute; Bignums primitives; Coq.Reals axioms for polar_roundtrip only; model InPulse.v/Interp.v tied by "
         "sampled correspondence; YAML/CSV, decimal printing and parsing, numpy and scipy interpolators are modelled (enc/dec parameters, "
         "interp1) not verified — their joint effect is what the tie observes. Two-parameter files: grid points only. Follows the fixed "
@@ -151,7 +161,8 @@ CHECKS = {
         "flag is 'the solver is empty'; the surviving leaf components are exactly the non-empty ones in order; the pruned solver "
         "reports the network equations of the original circuit (prune_same_matrix, via C02). Closed under the global context. The tie "
         "inserts empty models and dead solvers (nested, shared between placements) at random places and depths, calls prune() on /repo "
-        "and compares the returned flag, the tree of remaining structures at every level, and solve() after prune with the model.",
+        "and compares the returned flag, the tree of remaining structures at every level, and solve() after prune with the model."
+        " Dead leaves include pin-less models that carry a matrix and unmapped solved results; after prune the free pins of every surviving level are compared with the unconnected ports of the surviving components.",
    note="Trusted: Coq kernel + vm_compute; Bignums primitives for the executed instance; models Prune.v/Hier.v tied by sampled "
         "correspondence; harness. prune_same_matrix assumes dead sub-solvers hold no connections (nothing can be wired to a pin-less "
         "structure) and is conditional on the model returning Ok.",
@@ -163,7 +174,8 @@ CHECKS = {
         "of the innermost enclosing with-block (helpers_hit_innermost); effects recorded earlier are untouched (log_extends). Closed under "
         "the global context. The tie executes random such programs on /repo with every module-level helper (put, putpin, Pin.put, "
         "connect, connect_all, raise_pins, add_param, set/update_default_params, add_structure_to_monitors, solve) and compares the kind "
-        "of exit, lekkersim.sol_list afterwards and, for each helper call, which solver actually changed.",
+        "of exit, lekkersim.sol_list afterwards and, for each helper call, which solver actually changed."
+        " All solvers of a program share one parameter name, so a helper that touches an enclosing solver's entry is seen.",
    note="Trusted: Coq kernel + vm_compute; CPython's with/try semantics as modelled; model Stack.v tied by sampled correspondence; harness "
         "(the changed solver is detected by fingerprinting all solvers before/after each helper).",
    technique="Coq proof by induction over programs + vm_compute correspondence of executed with-block programs", design="§5 C17"),
@@ -200,7 +212,8 @@ CHECKS = {
         "passive whatever their size. Not provable in this family and therefore only exhibited: growth of floating-point round-off through "
         "thousands of LAPACK inversions, CPython recursion/time limits. The check runs /repo at the stated sizes (cascades 1000 quick / "
         "2000 thorough, nesting 40 / 80, meshes 100 / 400 couplers, lossy reflective chains 200 / 500) under a time limit against the "
-        "proven closed forms (computed exactly, compared inside Coq) and the theorem-derived oracles T^H T = I, T = T^T, passivity.",
+        "proven closed forms (computed exactly, compared inside Coq) and the theorem-derived oracles T^H T = I, T = T^T, passivity."
+        " Further streams: long lossy chains / deep lossy hierarchies compared in RELATIVE terms on the exact product (amplitudes down to 1e-40), coupler meshes against the product of their layer matrices, a 300-element sub-solver placed twice.",
    note="Trusted: Coq kernel + vm_compute; harness (builders, exact closed forms via fractions.Fraction). The runtime half is an "
         "observation at the sizes run, named as such in the evidence (coverage.partial = true).",
    technique="Coq proof of the exact-arithmetic half + execution of the implementation at scale against proven closed forms", design="§5 C20"),
@@ -212,7 +225,8 @@ CHECKS = {
         "coefficients of any solve of the flat circuit (hier_transparent); a bare component equals a solver containing only it with all "
         "pins raised (bare_equals_wrapped). Closed under the global context. The tie builds nested Solvers in /repo (shared sub-solvers "
         "placed several times, partial exposure, and a stream that edits a shared sub-solver between two solves of the parent) and "
-        "compares the observed top-level matrix with both the nested model and the flat model.",
+        "compares the observed top-level matrix with both the nested model and the flat model."
+        " Further streams: sub-solvers built with hand-named plus auto-raised pins (pin names shared between structures), and a placed sub-solver that exposes one more pin afterwards (the parent must answer as before).",
    note="Trusted: Coq kernel + vm_compute; Bignums primitives for the executed instance; model tied by sampled correspondence; harness "
         "(resolution of pin names to leaf pins is done by the harness; name handling is C16's subject). Conditional on the model returning Ok.",
    technique="Coq proof (induction over arbitrary nesting) + vm_compute correspondence nested-vs-flat-vs-implementation", design="§5 C02"),
@@ -243,7 +257,8 @@ CHECKS = {
         "remaining pin (join_sound, solve_sound), and that the model refuses a result if a connection was not eliminated. Closed under "
         "the global context. The same definitions run under vm_compute against Solver.solve of /repo on random reflective, "
         "non-reciprocal, lossy, multi-link, partially exposed circuits built through the public API in both styles, with scrambled pin "
-        "index maps; Coq compares every coefficient between exposed pins within 1e-9.",
+        "index maps; Coq compares every coefficient between exposed pins within 1e-9."
+        " The streams also map an external name twice (the last mapping counts) and link one pair of structures by 2-4 links in permuted pin order.",
    note="Trusted: Coq kernel + vm_compute; Bignums/Uint63 primitives for the executed instance only; hand-written model tied by sampled "
         "correspondence; harness. Theorems conditional on the model returning Ok (all inner systems met by the schedule invertible). "
         "The model follows the fixed code (F01: self-connections are rejected).",
